@@ -39,6 +39,17 @@ class Recorder(object):
         self._r('remove', host)
 
 
+def control_labels():
+    """Labels of the simulated TCP connections the driver opened as control connections (also before they have sent REGISTER)."""
+    out = set()
+    for c in seams.ALL_CONNS:
+        if getattr(c, 'is_control_connection', False):
+            lab = getattr(getattr(getattr(c, '_socket', None), 'conn', None), 'label', None)
+            if lab:
+                out.add(lab)
+    return out
+
+
 class FullWorld(object):
     def __init__(self, plan, seed, choices=None, horizon=120.0, step_cap=600000, net=None):
         self.plan = plan
